@@ -191,26 +191,26 @@ theorem refines_preIncDec (idx : Nat) (dg : DG.Graph) (x y bop : String)
 theorem list_refines (l : List Node) (IH : ∀ n ∈ l, NodeRefines B (Ok B) n) (cmd : Cmd)
     (hd : Option.map Cmd.seq (desugarL l) = some cmd) (hlf : cmd.loopFree = true)
     (hn : namesOkL l = true) (hc : castOkL l = true) (hb : B = bareClasses ∨ noBareL l = true)
-    (idx : Nat) (dg : DG.Graph) :
-    ∃ out, Analysis.computeList idx dg RelList.empty [] l = .ok out ∧ Refines B idx dg cmd out := by
+    (q : Bool) (idx : Nat) (dg : DG.Graph) :
+    ∃ out, Analysis.computeList q idx dg RelList.empty [] l = .ok out ∧ Refines B idx dg cmd out := by
   cases hdl : desugarL l with
   | none => simp [hdl] at hd
   | some cs =>
     simp only [hdl, Option.map_some, Option.some.injEq] at hd
     subst hd
     rw [Cmd.loopFree] at hlf
-    obtain ⟨out, ho, R⟩ := computeList_refines B (Ok B) l cs hdl hlf (okL_mem hn hc hb) IH idx dg
+    obtain ⟨out, ho, R⟩ := computeList_refines B (Ok B) l cs hdl hlf (okL_mem hn hc hb) IH q idx dg
       (Relation.new []) [] emptyRel_wf
     exact ⟨out, ho, refines_seq R⟩
 
 theorem branchList_refines (l : List Node) (IH : ∀ n ∈ l, NodeRefines B (Ok B) n) (cmd : Cmd)
     (hd : Option.map Cmd.seq (desugarL l) = some cmd) (hlf : cmd.loopFree = true)
     (hn : namesOkL l = true) (hc : castOkL l = true) (hb : B = bareClasses ∨ noBareL l = true)
-    (idx : Nat) (dg : DG.Graph) :
-    ∃ out, Analysis.branchList idx dg RelList.empty [] l = .ok out ∧ Refines B idx dg cmd out := by
+    (q : Bool) (idx : Nat) (dg : DG.Graph) :
+    ∃ out, Analysis.branchList q idx dg RelList.empty [] l = .ok out ∧ Refines B idx dg cmd out := by
   rw [branchList_eq_computeList]
-  · exact list_refines l IH cmd hd hlf hn hc hb idx dg
-  · intro n hn' idx' dg'
+  · exact list_refines l IH cmd hd hlf hn hc hb q idx dg
+  · intro n hn' q' idx' dg'
     cases hdl : desugarL l with
     | none => simp [hdl] at hd
     | some cs =>
@@ -218,7 +218,7 @@ theorem branchList_refines (l : List Node) (IH : ∀ n ∈ l, NodeRefines B (Ok 
       subst hd
       rw [Cmd.loopFree] at hlf
       obtain ⟨c, hdc, hlc⟩ := desugarL_mem hdl hlf n hn'
-      obtain ⟨out, ho, R⟩ := IH n hn' c hdc hlc (okL_mem hn hc hb n hn') idx' dg'
+      obtain ⟨out, ho, R⟩ := IH n hn' c hdc hlc (okL_mem hn hc hb n hn') q' idx' dg'
       exact ⟨out, ho, R.exit⟩
 
 theorem sizeOf_mem_lt {l : List Node} {n : Node} (h : n ∈ l) : sizeOf n < sizeOf l :=
@@ -227,8 +227,8 @@ theorem sizeOf_mem_lt {l : List Node} {n : Node} (h : n ∈ l) : sizeOf n < size
 theorem branch_refines (o : Option Node) (IH : ∀ n : Node, sizeOf n < sizeOf o → NodeRefines B (Ok B) n)
     (a : Cmd) (hd : desugarO o = some a) (hlf : a.loopFree = true)
     (hn : namesOkO o = true) (hc : castOkO o = true) (hb : B = bareClasses ∨ noBareO o = true)
-    (idx : Nat) (dg : DG.Graph) :
-    ∃ out, Analysis.branch idx dg o = .ok out ∧ Refines B idx dg a out := by
+    (q : Bool) (idx : Nat) (dg : DG.Graph) :
+    ∃ out, Analysis.branch q idx dg o = .ok out ∧ Refines B idx dg a out := by
   cases o with
   | none =>
     rw [desugarO] at hd
@@ -252,12 +252,12 @@ theorem branch_refines (o : Option Node) (IH : ∀ n : Node, sizeOf n < sizeOf o
         rw [castOk] at hc
         rw [noBare] at hb
         rw [Analysis.branch]
-        refine branchList_refines l (fun m hm => IH m ?_) a hd hlf hn hc hb idx dg
+        refine branchList_refines l (fun m hm => IH m ?_) a hd hlf hn hc hb q idx dg
         have := sizeOf_mem_lt hm
         simp only [Option.some.sizeOf_spec, Node.compound.sizeOf_spec]
         omega
-    · rw [Analysis.branch.eq_4 idx dg n (fun e => hcomp ⟨_, e⟩) (fun l e => hcomp ⟨_, e⟩)]
-      obtain ⟨out, ho, R⟩ := IH n (by simp only [Option.some.sizeOf_spec]; omega) a hd hlf ⟨hn, hc, hb⟩ idx dg
+    · rw [Analysis.branch.eq_4 q idx dg n (fun e => hcomp ⟨_, e⟩) (fun l e => hcomp ⟨_, e⟩)]
+      obtain ⟨out, ho, R⟩ := IH n (by simp only [Option.some.sizeOf_spec]; omega) a hd hlf ⟨hn, hc, hb⟩ q idx dg
       refine ⟨_, ?_, refines_comp_empty R⟩
       rw [ho]
       simp only [bind, Except.bind, R.exit]
@@ -357,14 +357,14 @@ theorem unaryAsgn_refines (idx : Nat) (dg : DG.Graph) (x op : String) (e : Node)
                 · cases hd
     · cases hd
 
-theorem compute_id (idx : Nat) (dg : DG.Graph) (n : String) :
-    Analysis.compute idx dg (.id n) = .ok (Analysis.skip idx dg ["ID"]) := by
+theorem compute_id (q : Bool) (idx : Nat) (dg : DG.Graph) (n : String) :
+    Analysis.compute q idx dg (.id n) = .ok (Analysis.skip idx dg ["ID"]) := by
   simp [Analysis.compute, Node.cls]; rfl
-theorem compute_const (idx : Nat) (dg : DG.Graph) (a b : String) :
-    Analysis.compute idx dg (.const a b) = .ok (Analysis.skip idx dg ["Constant"]) := by
+theorem compute_const (q : Bool) (idx : Nat) (dg : DG.Graph) (a b : String) :
+    Analysis.compute q idx dg (.const a b) = .ok (Analysis.skip idx dg ["Constant"]) := by
   simp [Analysis.compute, Node.cls]; rfl
-theorem compute_binop (idx : Nat) (dg : DG.Graph) (o : String) (l r : Node) :
-    Analysis.compute idx dg (.binop o l r) = .ok (Analysis.skip idx dg ["BinaryOp"]) := by
+theorem compute_binop (q : Bool) (idx : Nat) (dg : DG.Graph) (o : String) (l r : Node) :
+    Analysis.compute q idx dg (.binop o l r) = .ok (Analysis.skip idx dg ["BinaryOp"]) := by
   simp [Analysis.compute, Node.cls]; rfl
 
 /-- the statement `y++;` etc. once the operator is known to be an increment/decrement -/
@@ -388,7 +388,7 @@ theorem compute_refines_aux (N : Nat) : ∀ node : Node, sizeOf node < N → Nod
   induction N with
   | zero => intro node h; omega
   | succ N ih =>
-    intro node hsz cmd hd hlf hok idx dg
+    intro node hsz cmd hd hlf hok q idx dg
     rw [desugar.eq_def] at hd
     split at hd
     · -- return
@@ -514,9 +514,9 @@ theorem compute_refines_aux (N : Nat) : ∀ node : Node, sizeOf node < N → Nod
           hok.bare.imp id (fun h => by simp only [noBare, Bool.and_eq_true] at h; exact h.1)
         have hbf : B = bareClasses ∨ noBareO f = true :=
           hok.bare.imp id (fun h => by simp only [noBare, Bool.and_eq_true] at h; exact h.2)
-        obtain ⟨rt, hrt, Rt⟩ := branch_refines t (fun n hn' => ih n (by omega)) a ha hlf.1 hn.1 hc.1 hbt idx dg
+        obtain ⟨rt, hrt, Rt⟩ := branch_refines t (fun n hn' => ih n (by omega)) a ha hlf.1 hn.1 hc.1 hbt q idx dg
         obtain ⟨rf, hrf, Rf⟩ := branch_refines f (fun n hn' => ih n (by omega)) b hb hlf.2 hn.2 hc.2 hbf
-          rt.index rt.dg
+          q rt.index rt.dg
         refine ⟨_, ?_, refines_ite Rt Rf⟩
         rw [Analysis.compute, hrt]
         simp only [bind, Except.bind, Rt.exit, hrf, Rf.exit]
@@ -548,7 +548,7 @@ theorem compute_refines_aux (N : Nat) : ∀ node : Node, sizeOf node < N → Nod
       rw [namesOk] at hn
       rw [castOk] at hc
       refine list_refines l (fun m hm => ih m ?_) cmd hd hlf hn hc
-        (hok.bare.imp id (fun h => by rw [noBare] at h; exact h)) idx dg
+        (hok.bare.imp id (fun h => by rw [noBare] at h; exact h)) q idx dg
       have := sizeOf_mem_lt hm
       simp only [Node.compound.sizeOf_spec, Option.some.sizeOf_spec] at hsz
       omega
@@ -560,7 +560,7 @@ theorem compute_refines_aux (N : Nat) : ∀ node : Node, sizeOf node < N → Nod
       rw [namesOk] at hn
       rw [castOk] at hc
       exact ih st (by simp only [Node.label.sizeOf_spec] at hsz; omega) cmd hd hlf
-        ⟨hn, hc, hok.bare.imp id (fun h => by rw [noBare] at h; exact h)⟩ idx dg
+        ⟨hn, hc, hok.bare.imp id (fun h => by rw [noBare] at h; exact h)⟩ q idx dg
     · -- e1, e2
       rename_i es
       rw [Analysis.compute]
@@ -569,7 +569,7 @@ theorem compute_refines_aux (N : Nat) : ∀ node : Node, sizeOf node < N → Nod
       rw [namesOk] at hn
       rw [castOk] at hc
       refine list_refines es (fun m hm => ih m ?_) cmd hd hlf hn hc
-        (hok.bare.imp id (fun h => by rw [noBare] at h; exact h)) idx dg
+        (hok.bare.imp id (fun h => by rw [noBare] at h; exact h)) q idx dg
       have := sizeOf_mem_lt hm
       simp only [Node.exprList.sizeOf_spec] at hsz
       omega
@@ -581,10 +581,10 @@ theorem compute_refines_aux (N : Nat) : ∀ node : Node, sizeOf node < N → Nod
       rw [namesOk] at hn
       rw [castOk] at hc
       exact ih e (by simp only [Node.cast.sizeOf_spec] at hsz; omega) cmd hd hlf
-        ⟨hn, hc, hok.bare.imp id (fun h => by rw [noBare] at h; exact h)⟩ idx dg
+        ⟨hn, hc, hok.bare.imp id (fun h => by rw [noBare] at h; exact h)⟩ q idx dg
     · -- x;
       cases hd
-      exact ⟨_, compute_id idx dg _,
+      exact ⟨_, compute_id q idx dg _,
         refines_skip idx dg _ (by
           intro s hs
           simp only [List.mem_singleton] at hs; subst hs
@@ -592,7 +592,7 @@ theorem compute_refines_aux (N : Nat) : ∀ node : Node, sizeOf node < N → Nod
           · decide
           · simp [noBare] at h)⟩
     · cases hd
-      exact ⟨_, compute_const idx dg _ _,
+      exact ⟨_, compute_const q idx dg _ _,
         refines_skip idx dg _ (by
           intro s hs
           simp only [List.mem_singleton] at hs; subst hs
@@ -602,7 +602,7 @@ theorem compute_refines_aux (N : Nat) : ∀ node : Node, sizeOf node < N → Nod
     · split at hd
       · cases hd
       · cases hd
-        exact ⟨_, compute_binop idx dg _ _ _,
+        exact ⟨_, compute_binop q idx dg _ _ _,
           refines_skip idx dg _ (by
           intro s hs
           simp only [List.mem_singleton] at hs; subst hs
@@ -627,9 +627,9 @@ open Spec Refine in
     (`x;`, `1;`, `a+b;`), which `desugar` reads as no-ops while the analysis notes them as
     unsupported. -/
 theorem compute_refines_loopfree_partial (node : Node) (cmd : Cmd) (hd : desugar node = some cmd)
-    (hlf : cmd.loopFree = true) (idx : Nat) (dg : DG.Graph)
+    (hlf : cmd.loopFree = true) (q : Bool) (idx : Nat) (dg : DG.Graph)
     (hnames : namesOk node = true) (hcast : castOk node = true) :
-    ∃ out, Analysis.compute idx dg node = .ok out ∧ out.exit = false ∧ out.dg = dg ∧
+    ∃ out, Analysis.compute q idx dg node = .ok out ∧ out.exit = false ∧ out.dg = dg ∧
       (∀ s ∈ out.skipped, s ∈ bareClasses) ∧ (noBare node = true → out.skipped = []) ∧
       out.index = idx + cmd.arity ∧
       ∃ r, out.rels = [r] ∧ r.WF ∧ (∀ v ∈ r.vars, v ∈ cmd.vars) ∧
@@ -639,12 +639,12 @@ theorem compute_refines_loopfree_partial (node : Node) (cmd : Cmd) (hd : desugar
           ∃ M, sem U cmd idx (relabelAt idx cmd c) = some (idx + cmd.arity, M) ∧
             ∀ x y, x ∈ U → y ∈ U → r.den c x y = SMat.den U M x y := by
   obtain ⟨out, ho, R⟩ := compute_refines_aux (B := bareClasses) (sizeOf node + 1) node
-    (Nat.lt_succ_self _) cmd hd hlf ⟨hnames, hcast, Or.inl rfl⟩ idx dg
+    (Nat.lt_succ_self _) cmd hd hlf ⟨hnames, hcast, Or.inl rfl⟩ q idx dg
   obtain ⟨r, hr, wr, vr, semr⟩ := R.rel
   refine ⟨out, ho, R.exit, R.dg, R.skipped, ?_, R.index, r, hr, wr, vr, ?_⟩
   · intro hnb
     obtain ⟨out', ho', R'⟩ := compute_refines_aux (B := []) (sizeOf node + 1) node
-      (Nat.lt_succ_self _) cmd hd hlf ⟨hnames, hcast, Or.inr hnb⟩ idx dg
+      (Nat.lt_succ_self _) cmd hd hlf ⟨hnames, hcast, Or.inr hnb⟩ q idx dg
     rw [ho] at ho'
     cases ho'
     exact List.eq_nil_iff_forall_not_mem.2 (fun s hs => by cases R'.skipped s hs)
@@ -661,11 +661,12 @@ theorem double_cast_counterexample :
     desugar (.assign "=" (.id "x") (.cast (.cast (.id "y")))) = some (.asgnVar "x" "y") ∧
     namesOk (.assign "=" (.id "x") (.cast (.cast (.id "y")))) = true ∧
     castOk (.assign "=" (.id "x") (.cast (.cast (.id "y")))) = false ∧
-    Analysis.compute 0 [] (.assign "=" (.id "x") (.cast (.cast (.id "y")))) =
-      .ok ⟨0, [⟨[], []⟩], false, [], ["Assignment"]⟩ ∧
+    (∀ q, Analysis.compute q 0 [] (.assign "=" (.id "x") (.cast (.cast (.id "y")))) =
+      .ok ⟨0, [⟨[], []⟩], false, [], ["Assignment"]⟩) ∧
     Relation.den ⟨[], []⟩ [] "x" "x" = .m ∧
     sem ["x", "y"] (.asgnVar "x" "y") 0 [] = some (0, [[.o, .o], [.m, .m]]) := by
   refine ⟨by simp [desugar, Node.rmCast], by decide, by decide, ?_, by decide, by decide⟩
+  intro q
   simp [Analysis.compute, Node.rmCast1, Node.cls]
   rfl
 
